@@ -3,13 +3,6 @@
 open Conv
 open Hexu
 
-exception Timeout
-
-let with_timeout secs f =
-  let old = Sys.signal Sys.sigalrm (Sys.Signal_handle (fun _ -> raise Timeout)) in
-  ignore (Unix.alarm secs);
-  let r = try let v = f () in ignore (Unix.alarm 0); Some v with Timeout -> None in
-  Sys.set_signal Sys.sigalrm old; r
 
 let run file =
   let ic = open_in file in
